@@ -743,6 +743,15 @@ func (fr *Frame) assumeLemma(name string, st *State) {
 			}
 		}
 	}
+	// a slice parameter of the lemma is passed on to spec functions together with its backing array:
+	// the heap of its element type is universally quantified as well
+	for _, p := range cfn.Params {
+		if sl, ok := p.Type().Underlying().(*types.Slice); ok {
+			hn, _, _ := vc.typedHeap(ls, sl.Elem())
+			delete(ls.heaps, hn)
+			heaps[hn] = true
+		}
+	}
 	for _, h := range sortedKeys(heaps) {
 		n := fmt.Sprintf("lh!%s!%s", mangle(name), mangle(h))
 		bvs = append(bvs, bv{n, vc.heapSorts[h]})
